@@ -1,5 +1,5 @@
-"""maintenance tool (never run by a check): python3 -m vp.accept <ID> [note] – after triage, record every violation currently in
-replays/<ID>/ as a known finding."""
+"""maintenance tool (never run by a check): python3 -m vp.accept <ID> [note] – after triage, record every violation that the LAST run of
+the check wrote to replays/<ID>/ as a known finding (older replay files, e.g. left by a run against a seeded tree, are ignored)."""
 import sys, json, glob, os
 from .common import VERIF
 pid = sys.argv[1]; note = sys.argv[2] if len(sys.argv) > 2 else ""
@@ -7,7 +7,12 @@ p = os.path.join(VERIF, "known_findings.json")
 d = json.load(open(p))
 have = {(f["property"], f["signature"]) for f in d["findings"]}
 n = 0
+ev = os.path.join(VERIF, "evidence", pid + ".json")
+t_ev = os.path.getmtime(ev)
+wall = json.load(open(ev)).get("wall_s", 0)
 for f in sorted(glob.glob(os.path.join(VERIF, "replays", pid, "*.json"))):
+    if not (t_ev - 120 <= os.path.getmtime(f) <= t_ev + 5):
+        continue  # not written by the last run
     r = json.load(open(f))
     if (pid, r["signature"]) in have:
         continue
